@@ -451,6 +451,46 @@ def d3(cx: Cx, ob: Ob) -> None:
         loc = calls[0]
         fail = succ = False
         outcomes = list(s.outcomes())
+        # (a) the only reason to answer FAILURE_CODE is that expand_pair returned None: a refusal decided on the
+        #     prefix / identifier themselves answers 422 for CURIEs that expand() resolves
+        for o, ctx in outcomes:
+            if o is None:
+                continue
+            t = o[1]
+            is_fail_answer = op(t) == "call" and callee_name(t) in ("abort", "HTTPException") and any(x == ("gconst", RS, "FAILURE_CODE") or is_const(x, 422) for x in subterms(t))
+            if not is_fail_answer:
+                continue
+            tied = any(g.kind == "guard" and any(x == loc or (op(x) == "call" and op(x[1]) == "attr" and x[1][1] == conv and x[1][2] == "expand_pair") for x in subterms(g.a)) for g in ctx.guards)
+            if not tied:
+                own = [g for g in ctx.guards if g.kind == "guard" and any(op(x) in ("bv", "param") and x != conv for x in subterms(g.a))]
+                ob.violate(
+                    handler.qualname,
+                    where(handler, o[2]),
+                    f"the {fw} handler answers {show(t)[:40]} when `{('' if own[-1].b else 'not ') + show(own[-1].a)[:50] if own else '?'}` - a refusal of its own, not tied to expand_pair returning None: CURIEs that converter.expand resolves are answered 422",
+                    witness="GET /<known prefix>:a..b answers 422 although expand gives a URI",
+                    detail="extra-failure",
+                )
+        # (b) on the way to the failure answer nothing may raise: `xs[0]` of a list that is empty for a converter
+        #     without records (close matches, sorted prefixes) turns the 422 into a 500
+        for ev, ctx in s.walk():
+            on_fail = any(g.kind == "guard" and op(g.a) == "cmp" and (g.a[2] == loc or (op(g.a[2]) == "call" and op(g.a[2][1]) == "attr" and g.a[2][1][1] == conv and g.a[2][1][2] == "expand_pair")) and is_const(g.a[3], None) and ((g.a[1] in ("is", "==")) == g.b) for g in ctx.guards)
+            if not on_fail:
+                continue
+            for t in (ev.a, ev.b):
+                if not isinstance(t, tuple):
+                    continue
+                safe = {y[2] for y in subterms(t) if op(y) == "ifexp" and op(y[2]) == "item" and y[1] == y[2][1]} | {y[3] for y in subterms(t) if op(y) == "ifexp" and op(y[3]) == "item" and y[1] == ("not", y[3][1])}
+                for x in subterms(t):
+                    if x in safe or (op(x) == "item" and any(g.kind == "guard" and g.a == x[1] and g.b is True for g in ctx.guards)):
+                        continue  # taken only when the list is not empty
+                    if op(x) == "item" and is_const(x[2]) and isinstance(x[2][1], int) and op(x[1]) == "call" and (x[1][1] in (("builtin", "sorted"), ("builtin", "list")) or (op(x[1][1]) == "ext" and x[1][1][1] in ("difflib.get_close_matches", "re.findall"))):
+                        ob.violate(
+                            handler.qualname,
+                            where(handler, ev.line),
+                            f"the {fw} handler takes element {x[2][1]} of `{show(x[1])[:50]}` on its way to the 422 answer: for a converter without records (an app built first and filled later) the list is empty, IndexError is raised and the request is answered 500",
+                            witness="an app built from Converter([]) and any prefix",
+                            detail="failure-path-raises:IndexError",
+                        )
         for o, ctx in outcomes:
             if o is None:
                 continue
@@ -544,3 +584,31 @@ def x5(cx: Cx, ob: Ob) -> None:
     from .c05 import check_add_record_pairing
 
     check_add_record_pairing(cx, ob)
+
+
+@obligation("C17-D6", "the handlers ask the converter every time: no memo (lru_cache / cache) in front of a non-strict converter query, whose answer None for a prefix the converter learns later (add_prefix on the converter the app was built from) would be served for ever", floor=2)
+def d6(cx: Cx, ob: Ob) -> None:
+    rts = routes(cx, ob)
+    for fw, (fn, handler, parts, line, deco) in rts.items():
+        ob.site(f"{fn.where} {fn.qualname}", f"{fw}: memo scan")
+        for n in ast.walk(fn.node):
+            # lru_cache(...)(converter.method) / cache(converter.method)
+            if isinstance(n, ast.Call) and n.args and isinstance(n.args[0], ast.Attribute) and isinstance(n.args[0].value, ast.Name) and n.args[0].value.id == fn.params[0].name:
+                f = n.func
+                head = f.func if isinstance(f, ast.Call) else f
+                name = ast.unparse(head).rsplit(".", 1)[-1]
+                if name in ("lru_cache", "cache"):
+                    ob.violate(
+                        fn.qualname,
+                        f"src/curies/resolver_service.py:{n.lineno}",
+                        f"{fn.name} wraps converter.{n.args[0].attr} in {name}: the memo also remembers the answer None, so a CURIE that was asked for before its prefix was added (converter.add_prefix on the converter the app was built from) is answered 422 for ever, while converter.expand resolves it",
+                        witness="GET /x:1 -> 422; converter.add_prefix('x', ...); GET /x:1 -> still 422",
+                        detail=f"memoised-query:{n.args[0].attr}",
+                    )
+            # @lru_cache on a local function that asks the converter non-strictly
+            if isinstance(n, (ast.FunctionDef, ast.AsyncFunctionDef)) and n is not fn.node and any(ast.unparse(d.func if isinstance(d, ast.Call) else d).rsplit(".", 1)[-1] in ("lru_cache", "cache") for d in n.decorator_list):
+                for c in ast.walk(n):
+                    if isinstance(c, ast.Call) and isinstance(c.func, ast.Attribute) and isinstance(c.func.value, ast.Name) and c.func.value.id == fn.params[0].name:
+                        strict = any(k.arg == "strict" and isinstance(k.value, ast.Constant) and k.value.value is True for k in c.keywords)
+                        if not strict:
+                            ob.violate(fn.qualname, f"src/curies/resolver_service.py:{c.lineno}", f"{fn.name} memoises `{ast.unparse(c)[:50]}`, which returns None for an unknown prefix: the miss is remembered after the converter has learnt the prefix", detail=f"memoised-query:{c.func.attr}")
